@@ -433,7 +433,14 @@ func (e *Engine) invoke(st *State, recv IfaceV, ifaceT types.Type, m *types.Func
 		setRes(st, res, rv)
 		return []*State{st}
 	}
-	if e.isExternIface(ifaceT, m) {
+	depIface := !e.inModule(m.Pkg())
+	if _, hasSpec := ifaceSpecs[m.FullName()]; hasSpec {
+		depIface = false
+	}
+	if e.isExternIface(ifaceT, m) || depIface {
+		if depIface && !e.isExternIface(ifaceT, m) {
+			e.trustedUsed["call of "+m.FullName()+" (an interface of a dependency without specification): modelled like an extern interface - a trace event with an arbitrary result"] = true
+		}
 		sig := m.Type().(*types.Signature)
 		var rv Value
 		switch sig.Results().Len() {
